@@ -90,3 +90,200 @@ GROUPS = [
                   "original datagram of 136 symbolic bytes + 12-byte extension",
     },
 ]
+
+# ====================================================================== trippy-core (hooks)
+STATE_FNS = ["strategy::state::TracerState::{next_probe,reissue_probe,fail_probe,complete_probe,advance_round,in_round,"
+             "round_has_capacity,probes,probe_at,probe_data,probe_icmp_data,probe_udp_data,probe_tcp_data,max_sequence,finished}"]
+STRAT_FNS = ["strategy::Strategy::{send_request,do_send,recv_response,update_round,publish_trace,check_trace_id,validate}",
+             "strategy::StrategyResponse::from", "strategy::ProtocolStrategyResponse::from", "strategy::exceeds"]
+INV_TXT = ("pre-states: every TracerState satisfying the representation invariant INV (harness/core/strategy_state.rs "
+           "inv_scalar / slot_ok), buffer all NotSent except the slots the harness sets")
+CLOCK_STUB = "std::time::SystemTime::now -> harness clock (symbolic instants armed by the harness)"
+NET_STUB = "Network = SymNet (harness): arbitrary send outcome Ok/ProbeFailed/AddressInUse/Fatal, records probes"
+SOCK_STUB = "Socket = HSock (harness): read/recv_from return the armed symbolic bytes; send_to hands the bytes to the independent decoder; bind/connect/send outcomes symbolic"
+FS1100 = ["--max-field-sensitivity-array-size", "1100"]
+
+GROUPS += [
+    # ------------------------------------------------------------------ C07
+    {
+        "id": "C07.scalar", "property": ["C07", "C03"], "crate": "core", "stubbing": True,
+        "harnesses": ["c07_advance_round_step", "c07_window_predicates"], "jobs": 4, "timeout_s": 300, "mem_gb": 8,
+        "functions": STATE_FNS, "stubs": [CLOCK_STUB],
+        "bounds": "all initial sequences 0..=64511, both maximum-sequence regimes, all round sizes 0..=512, all "
+                  "round_sequence / sequence values in one query (one inductive step); " + INV_TXT,
+    },
+    {
+        "id": "C07.sym", "property": "C07", "crate": "core", "harnesses": ["c07_next_probe_sym", "c07_reissue_probe_sym"],
+        "jobs": 4, "timeout_s": 900, "mem_gb": 12, "functions": STATE_FNS,
+        "bounds": "next_probe / reissue_probe with round_sequence, sequence (hence slot index), ttl, round, config ALL "
+                  "symbolic; scalar post-conditions only; " + INV_TXT,
+    },
+    {
+        "id": "C07.slot", "property": ["C07", "C01"], "crate": "core",
+        "harnesses": ["c07_next_probe_slot", "c07_reissue_probe_slot"], "jobs": 8, "timeout_s": 300, "mem_gb": 8,
+        "functions": STATE_FNS,
+        "bounds": "slot contents at window positions (round_sequence, size) in {(0,0),(0,511),(33434,7),(33434,253),"
+                  "(64511,1),(65022,0),(65022,511)} / reissue {(0,1),(33434,300),(65022,511)}; every other field symbolic",
+        "assumptions": ["slot effects do not depend on the numeric window position (by inspection: one or two computed "
+                        "indices, no other slot is read)"],
+    },
+    {
+        "id": "C07.dublin6", "property": "C07", "crate": "core", "stubbing": True, "cbmc_args": FS1100,
+        "harnesses": ["c07_v6_dublin_payload_slice_in_range"], "jobs": 2, "timeout_s": 900, "mem_gb": 12,
+        "functions": ["net::ipv6::Ipv6::{dispatch_udp_probe,dispatch_udp_probe_raw,make_udp_packet}"],
+        "stubs": [SOCK_STUB, "trippy_packet::checksum::udp_ipv6_checksum -> arbitrary u16 (cut; C13 covers it)"],
+        "bounds": "every sequence offset 0..=970 (what INV allows: c07_next_probe_sym_v6), symbolic initial sequence",
+    },
+    # ------------------------------------------------------------------ C06 / C09 / C01 send step
+    {
+        "id": "C06.send", "property": ["C06", "C09", "C01"], "crate": "core", "stubbing": True,
+        "harnesses": ["c06_send_step_icmp", "c06_send_step_udp"], "jobs": 5, "timeout_s": 900, "mem_gb": 10,
+        "functions": STRAT_FNS + STATE_FNS, "stubs": [CLOCK_STUB, NET_STUB],
+        "bounds": "one send_request step, ICMP/UDP, window positions {(0,0),(33434,5),(64511,0),(33434,9),(65022,253)}, ttl / "
+                  "max-received / target-ttl / target-found / first,max ttl / max-inflight / addresses / ports symbolic; "
+                  "unwind 2 (no loop may iterate: Vec clone/drop paths are infeasible for NotSent/Awaited slots)",
+    },
+    {
+        "id": "C06.send.tcp", "property": ["C06", "C09", "C01", "C07"], "crate": "core", "stubbing": True,
+        "harnesses": ["c06_send_step_tcp"], "jobs": 4, "timeout_s": 1200, "mem_gb": 15,
+        "functions": STRAT_FNS + STATE_FNS, "stubs": [CLOCK_STUB, NET_STUB],
+        "bounds": "one TCP send_request step with at most ONE AddressInUse answer (re-issue loop body is uniform), window "
+                  "positions {(0,0),(33434,17),(65022,510),(65022,511),(33434,512)}: budget boundary 510/511/512 included",
+    },
+    # ------------------------------------------------------------------ C08 / C09
+    {
+        "id": "C08.update_round", "property": ["C08", "C09"], "crate": "core", "stubbing": True,
+        "harnesses": ["c08_"], "jobs": 2, "timeout_s": 600, "mem_gb": 8,
+        "functions": STRAT_FNS + ["TracerState::advance_round"], "stubs": [CLOCK_STUB],
+        "bounds": "clock reading, round start, last-response time: seconds < 2^32, any nanosecond, unordered (clock may step "
+                  "backwards); min <= max <= 2^32 s, grace any; one update_round call",
+    },
+    {
+        "id": "C09.steps", "property": "C09", "crate": "core", "harnesses": ["c09_finished", "c09_recv_"], "jobs": 3,
+        "timeout_s": 300, "mem_gb": 8, "functions": STRAT_FNS + STATE_FNS, "stubs": [NET_STUB],
+        "bounds": "finished: all n >= 1, all round counters; recv_response with a fatal error / a timeout from every INV state",
+    },
+    # ------------------------------------------------------------------ C10
+    {
+        "id": "C10.publish", "property": ["C10", "C01"], "crate": "core", "harnesses": ["c10_publish_trace"], "jobs": 1,
+        "timeout_s": 300, "mem_gb": 8, "functions": STRAT_FNS + ["TracerState::probes"],
+        "bounds": "every INV state (all scalars symbolic)",
+    },
+    {
+        "id": "C10.window", "property": "C10", "crate": "core", "harnesses": ["c10_flow_state_window_queries"], "jobs": 1,
+        "timeout_s": 900, "mem_gb": 12, "functions": ["state::FlowState::{new,hops,target_hop,is_target,is_in_round,round,round_count}"],
+        "bounds": "real FlowState::new (254 hops) with lowest/highest/highest-for-round ttl symbolic under WIN",
+        "assumptions": ["WIN (lowest in {0} u [1,254], hfr <= highest <= 254, lowest <= highest when both set) is what "
+                        "StateUpdater::apply maintains: by reading (update_for_probe is outside reach)"],
+    },
+    # ------------------------------------------------------------------ C01 / C03 receive step
+    {
+        "id": "C01.complete", "property": ["C01", "C03", "C06"], "crate": "core", "harnesses": ["c01_complete_probe_awaited"],
+        "jobs": 3, "timeout_s": 900, "mem_gb": 12, "functions": STATE_FNS,
+        "bounds": "complete_probe on an Awaited slot at window positions {(0,2,0),(33434,9,7),(65022,512,510)} (round_sequence, "
+                  "size, slot), arbitrary derived response (extensions: None or empty list), unwind 2",
+    },
+    {
+        "id": "C03.ignored", "property": ["C03", "C01", "C04"], "crate": "core",
+        "harnesses": ["c03_duplicate_ignored", "c03_never_sent_ignored", "c03_skipped_ignored", "c03_failed_ignored"],
+        "jobs": 6, "timeout_s": 900, "mem_gb": 12, "functions": STATE_FNS,
+        "bounds": "complete_probe on a Complete / NotSent / Skipped / Failed slot at representative window positions, "
+                  "arbitrary derived response, unwind 2",
+    },
+    {
+        "id": "C03.decision", "property": ["C03", "C01", "C19", "C04"], "crate": "core", "harnesses": ["c03_recv_decision"],
+        "jobs": 10, "timeout_s": 300, "mem_gb": 8, "functions": STRAT_FNS + ["TracerState::in_round"],
+        "bounds": "5 response kinds x 3 protocol payloads x {v4,v6} (10 representative combinations), every field of the "
+                  "response, configuration and window symbolic",
+    },
+    # ------------------------------------------------------------------ C02
+    {
+        "id": "C02.identity", "property": ["C02", "C03"], "crate": "core", "harnesses": ["c02_identity"], "jobs": 6,
+        "timeout_s": 300, "mem_gb": 8, "functions": STRAT_FNS + ["TracerState::probe_data", "TracerState::in_round"],
+        "bounds": "all 2^16 sequences x rounds x ports x addresses x identifiers, per protocol x family (6 queries)",
+        "assumptions": ["wire contract: IPv4 identification = probe identifier, UDP ports = probe ports, UDP checksum = "
+                        "sequence (Paris), UDP payload length = sequence - initial + marker (Dublin/IPv6), ICMP id/seq; "
+                        "honoured by dispatch (c11_*) and by parse (c02_v*_extract_*)"],
+    },
+    {
+        "id": "C02.extract.v4", "property": "C02", "crate": "core", "stubbing": True, "cbmc_args": FS1100,
+        "harnesses": ["c02_v4_extract", "c02_v4_recv_tcp_socket"], "jobs": 4, "timeout_s": 900, "mem_gb": 12,
+        "functions": ["net::ipv4::Ipv4::{extract_probe_proto_resp,calc_udp_checksum,recv_tcp_socket}",
+                      "net::ipv4::{extract_echo_request,extract_udp_packet,extract_tcp_packet}"],
+        "stubs": [SOCK_STUB, CLOCK_STUB, "udp_ipv4_checksum -> arbitrary u16 in the UDP extract harness (cut)"],
+        "bounds": "arbitrary quoted datagram, symbolic length IHL*4+8 ..= 48 (quick) / 64 (thorough), IHL 5..15",
+    },
+    {
+        "id": "C02.extract.v6", "property": "C02", "crate": "core", "stubbing": True, "cbmc_args": FS1100,
+        "harnesses": ["c02_v6_extract"], "jobs": 3, "timeout_s": 900, "mem_gb": 12,
+        "functions": ["net::ipv6::Ipv6::extract_probe_proto_resp", "net::ipv6::{extract_echo_request,extract_udp_packet,"
+                      "extract_tcp_packet,udp_payload_has_magic_prefix}"],
+        "bounds": "arbitrary quoted datagram, symbolic length 48 ..= 64 (quick) / 80 (thorough)",
+    },
+    # ------------------------------------------------------------------ C04 receive path
+    {
+        "id": "C04.recv.v4", "property": ["C04", "C01"], "crate": "core", "stubbing": True, "cbmc_args": FS1100,
+        "harnesses": ["c04_v4_recv", "c04_v4_calc"], "jobs": 4, "timeout_s": 1500, "mem_gb": 14,
+        "functions": ["net::ipv4::Ipv4::{recv_icmp_probe,extract_probe_resp,extract_probe_proto_resp,calc_udp_checksum}"],
+        "stubs": [SOCK_STUB, CLOCK_STUB, "udp_ipv4_checksum -> arbitrary u16 (UDP harnesses only; C13 covers it)"],
+        "bounds": "arbitrary datagram of <= 64 (quick) / 96 (thorough) bytes, every length, ICMP/UDP/TCP x extension mode",
+    },
+    {
+        "id": "C04.recv.v6", "property": ["C04", "C01"], "crate": "core", "stubbing": True, "cbmc_args": FS1100,
+        "harnesses": ["c04_v6_recv"], "jobs": 4, "timeout_s": 1500, "mem_gb": 14,
+        "functions": ["net::ipv6::Ipv6::{recv_icmp_probe,extract_probe_resp,extract_probe_proto_resp}"],
+        "stubs": [SOCK_STUB, CLOCK_STUB],
+        "bounds": "arbitrary datagram of <= 64 (quick) / 96 (thorough) bytes, every length, address present / missing",
+    },
+    # ------------------------------------------------------------------ C11 / C13 / C19 dispatch
+    {
+        "id": "C11.dispatch.v4", "property": ["C11", "C19", "C09"], "crate": "core", "stubbing": True, "cbmc_args": FS1100,
+        "harnesses": ["c11_v4_", "c09_v4_", "c19_v4_"], "jobs": 5, "timeout_s": 1500, "mem_gb": 12,
+        "functions": ["net::ipv4::Ipv4::{dispatch_icmp_probe,dispatch_udp_probe,dispatch_udp_probe_raw,dispatch_tcp_probe,"
+                      "make_echo_request_icmp_packet,make_udp_packet,make_ipv4_packet,calc_udp_checksum,recv_icmp_probe}",
+                      "net::common::ErrorMapper::{in_progress,addr_in_use,probe_failed}", "Ipv4ByteOrder::adjust_length"],
+        "stubs": [SOCK_STUB],
+        "bounds": "packet sizes {28, 29, 37} + all out-of-range sizes; sequence, identifier, ports, ttl, tos, addresses "
+                  "symbolic; payload pattern 0xA5 (quick) / symbolic (thorough); privileged mode; network byte order",
+    },
+    {
+        "id": "C11.dispatch.v6", "property": "C11", "crate": "core", "stubbing": True, "cbmc_args": FS1100,
+        "harnesses": ["c11_v6_"], "jobs": 5, "timeout_s": 1500, "mem_gb": 12,
+        "functions": ["net::ipv6::Ipv6::{dispatch_icmp_probe,dispatch_udp_probe,dispatch_udp_probe_raw,dispatch_tcp_probe,"
+                      "make_echo_request_icmp_packet,make_udp_packet}"],
+        "stubs": [SOCK_STUB],
+        "bounds": "packet sizes {48, 49, 57} + all out-of-range sizes; Dublin payload lengths {0, 21}; fields symbolic",
+    },
+    {
+        "id": "C13.paris", "property": ["C13", "C11"], "crate": "core", "stubbing": True, "cbmc_args": FS1100,
+        "harnesses": ["c13_v4_dispatch_udp_paris", "c13_v6_dispatch_udp_paris"], "jobs": 2, "timeout_s": 1500, "mem_gb": 12,
+        "functions": ["Ipv4/Ipv6::dispatch_udp_probe_raw (Paris swap)", "checksum::{udp_ipv4_checksum,udp_ipv6_checksum}"],
+        "stubs": [SOCK_STUB],
+        "bounds": "all 2^16 sequences x ports x addresses x ttl, both families",
+    },
+    # ------------------------------------------------------------------ C15 / C16 / C19
+    {
+        "id": "C15.registry", "property": "C15", "crate": "core", "harnesses": ["c15_"], "jobs": 3, "timeout_s": 1200,
+        "mem_gb": 12, "functions": ["flows::FlowRegistry::{new,register,flows}", "flows::Flow::{check,merge,from_hops}"],
+        "bounds": "registry of <= 2 flows x <= 2 entries, observed flow of <= 3 entries, addresses 10.0.0.x symbolic",
+    },
+    {
+        "id": "C16.accepted", "property": "C16", "crate": "core", "stubbing": True,
+        "harnesses": ["c16_probe_data", "c16_accepted_config", "c16_builder_rejects", "c16_tcp_probe_table"], "jobs": 6,
+        "timeout_s": 900, "mem_gb": 12,
+        "functions": ["builder::Builder::build (rejecting half)", "TracerState::probe_data", "Strategy::{send_request,"
+                      "publish_trace}", "TracerState::advance_round", "net::channel::Channel::{send_probe,dispatch_tcp_probe}"],
+        "stubs": [CLOCK_STUB, NET_STUB, SOCK_STUB, "alloc::fmt::format -> empty String (error messages)"],
+        "bounds": "every builder parameter combination (protocol, strategy, port direction, first/max ttl, initial sequence); "
+                  "first round from the initial state at initial sequences {0, 33434, 64511}; TCP table 0..=256 entries",
+        "assumptions": ["Builder::build's accepting path (Tracer::new -> State::new) is not executed; make_strategy_config "
+                        "is a field-by-field copy (read)"],
+    },
+    {
+        "id": "C19.nat", "property": "C19", "crate": "core", "harnesses": ["c19_nat"], "jobs": 2, "timeout_s": 300, "mem_gb": 8,
+        "functions": ["state::state_updater::nat_status"],
+        "bounds": "all 2^16 x 2^16 x Option<2^16> inputs; three-hop threading with symbolic checksums",
+        "assumptions": ["prev_hop_checksum starts at None each round and is threaded hop by hop (StateUpdater::new / "
+                        "update_for_probe): by reading (outside reach)"],
+    },
+]
